@@ -49,7 +49,7 @@ def worker(a):
             n += 1
             want = F0 * cmath.exp(-2j * math.pi * sh / 24.0)
             if abs(Fk - want) > tol:
-                kinds = sorted(set(sp[3] for sp in atoms_spec))
+                kinds = [str(sp[3]) for sp in atoms_spec]
                 out.append("F(hR) = %r for operation %d (hR = %s, h.t = %d/24), expected F(h).exp(-2 pi i h.t) = %r (|diff| %.3g > %.2g; adp types %s) (%s)" %
                            (Fk, k + 1, g, sh, want, abs(Fk - want), tol, kinds, tag))
                 break
@@ -101,9 +101,11 @@ def run(tier, seed):
             cells[key] = (met, c, gl.cell_from_recip_metric(met, c))
         met, c, cell = cells[key]
         spec = []
-        for i, kind in enumerate(["Uiso", "Uani", "Uani"] if tier == "thorough" else ["Uiso", "Uani"]):
+        # every kind of displacement in every order: an atom without displacement right after an anisotropic one, after an isotropic one, first
+        orders = [["Uiso", "Uani"], ["Uani", None, "Uiso"], [None, "Uani", None], ["Uani", "Uiso", None, "Uani"], ["Uiso", None]]
+        for i, kind in enumerate(["Uiso", "Uani", "Uani", None] if tier == "thorough" else orders[len(todo) % len(orders)]):
             pos = [rng.uniform(0.03, 0.97) for _ in range(3)]
-            adp = rng.uniform(0.005, 0.05) if kind == "Uiso" else S.random_uani(rng, met, c)
+            adp = rng.uniform(0.005, 0.05) if kind == "Uiso" else (S.random_uani(rng, met, c) if kind == "Uani" else 0.0)
             spec.append(("A%d" % i, rng.choice(S.ELEMENTS), pos, kind, adp, rng.uniform(0.2, 1.0), t["nsymop"]))
         nops = len(x["ops"])
         ks = list(range(nops))
